@@ -360,4 +360,15 @@ theorem calc_core {now : Int} (ref : Ref) {o : Options} (h0 : 0 ≤ now)
   rw [calc_ast, calc_elapsed]
   exact ⟨a, b, c, d⟩
 
+/-- a symbolic start yields a stream at least one minute old (for `epoch`:
+once the clock is a minute past the epoch) -/
+theorem symbolic_age_gen {now : Int} (ref : Ref) {o : Options} (h0 : 0 ≤ now)
+    (hs : o.start.isSymbolic = true) (hep : o.start = .epoch → minuteUs ≤ now) :
+    minuteUs ≤ (calculateLiveParams now ref o).elapsedTime := by
+  obtain ⟨a, _⟩ := resolve_symbolic h0 o.start hs hep
+  have hlt : resolved now o < now := by unfold resolved; unfold minuteUs at a; omega
+  rw [calc_elapsed, backOff_of_lt hlt]
+  unfold resolved
+  omega
+
 end DashLive.LiveTiming
